@@ -93,7 +93,7 @@ Section GenCosmolib.
   Definition V_src (xs ws : list float) (fdV : float -> float) (zmin zmax : float) : float :=
     let v := (0x0.0p+0) in let f1 := ((zmax - zmin) / (0x1.0000000000000p+1)) in let f2 := ((zmax + zmin) / (0x1.0000000000000p+1)) in let v := fold_left (fun v xw => let xi := fst xw in let wi := snd xw in let z := ((xi * f1) + f2) in let dv := (fdV z) in let v := (v + ((f1 * dv) * wi)) in v) (combine xs ws) v in ((v * (0x1.0000000000000p+2)) * M_PI_F).
   Definition scinv_src (fDa : float -> float -> float) (zl zs : float) : float :=
-    if (zs <? zl) then (0x0.0p+0) else (let dl := (fDa (0x0.0p+0) zl) in let ds := (fDa (0x0.0p+0) zs) in let dls := (fDa zl zs) in (((dls * dl) / ds) * FOUR_PI_G_OVER_C_SQUARED_F)).
+    if (zs <=? zl) then (0x0.0p+0) else (let dl := (fDa (0x0.0p+0) zl) in let ds := (fDa (0x0.0p+0) zs) in let dls := (fDa zl zs) in (((dls * dl) / ds) * FOUR_PI_G_OVER_C_SQUARED_F)).
   Definition tcfac_src (flat : bool) (DH ok : float) : float :=
     let tcfac := (0x0.0p+0) in let tcfac := (if (negb flat) then (let tcfac := (if ((0x0.0p+0) <? ok) then (let tcfac := ((PrimFloat.sqrt ok) / DH) in tcfac) else (let tcfac := ((PrimFloat.sqrt (- ok)) / DH) in tcfac)) in tcfac) else (tcfac)) in tcfac.
 End GenCosmolib.
